@@ -23,7 +23,7 @@ BUDGET = {'quick': (600, 1500), 'thorough': (1800, 3600)}
 TECHNIQUE = 'runtime monitoring: history monitor; exports compared with the public projection computed by an independent parser; secret-octet scan; refusal matrix'
 
 SHAPES = [('ed25519_1', 'ecdh_p256_1+kdf10.9'), ('ecdsa_p384_0', 'cv25519_1+kdf9.8'), ('ed25519_0', 'cv25519_0'), ('rsa1024_0', 'rsa1024_1'), ('ecdsa_p256_0', 'ecdh_p256_0'), ('dsa1024_0', 'ed25519_1'), ('ecdsa_k256_0', 'ecdh_k256_0'), ('rsa2048_0', None)]
-OPS = ['add_uid', 'add_ua', 'add_subkey', 'third_party', 'revoke_uid', 'revoke_subkey', 'revoke_key', 'direct', 'del_uid', 'recertify', 'protect', 'nonexportable']
+OPS = ['add_uid', 'add_ua', 'add_subkey', 'third_party', 'revoke_uid', 'revoke_subkey', 'revoke_key', 'direct', 'del_uid', 'recertify', 'protect', 'nonexportable', 'lapsed_cert']
 
 
 def cases(tier, seed):
@@ -171,6 +171,14 @@ def run_case(ctx, d):
                 elif op == 'third_party':
                     u = k.userids[0]
                     u |= other.certify(u, SignatureType.Casual_Cert)
+                elif op == 'lapsed_cert':
+                    # a certification whose own expiration time has passed is still a signature of the key: both halves carry it
+                    from datetime import datetime, timezone, timedelta
+                    u = k.userids[0]
+                    u |= other.certify(u, SignatureType.Generic_Cert, created=datetime.now(timezone.utc) - timedelta(hours=3 + i), expires=timedelta(hours=1))
+                    if k.userattributes:
+                        a_ = k.userattributes[0]
+                        a_ |= other.certify(a_, SignatureType.Generic_Cert, created=datetime.now(timezone.utc) - timedelta(days=2, hours=i), expires=timedelta(minutes=5))
                 elif op == 'nonexportable':
                     u = k.userids[-1]
                     u |= other.certify(u, SignatureType.Generic_Cert, exportable=False)
@@ -259,7 +267,7 @@ def classify(ctx, kind, detail, case):
     """known finding: a twin derived earlier is not kept in sync (only the most recently derived twin receives additions made through key |= x).
     Positively confirmed: the *fresh* twin of the same state matched the projection in the same step (no fresh-twin failure recorded for this case)."""
     if kind == 'held-public-twin-is-stale':
-        unsynced = {'add_subkey', 'del_uid', 'third_party', 'nonexportable', 'revoke_uid', 'revoke_subkey', 'recertify'}
+        unsynced = {'add_subkey', 'del_uid', 'third_party', 'nonexportable', 'lapsed_cert', 'revoke_uid', 'revoke_subkey', 'recertify'}
         if unsynced & set(detail.get('ops_since', [])):
             return 'public-twin-held-from-earlier-goes-stale'
     return None
